@@ -71,12 +71,12 @@ public:
         {
             // the image is upside down
             offset = this->_info._offset
-                   + ( this->_info._height - 1 - pos ) * this->_pitch;
+                   + static_cast< long >( this->_info._height - 1 - pos ) * this->_pitch;
         }
         else
         {
             offset = this->_info._offset
-                   + pos * _pitch;
+                   + static_cast< long >( pos ) * _pitch;
         }
 
         this->_io_dev.seek( offset );
